@@ -54,6 +54,12 @@ func runC17(c *Ctx) {
 			}
 			continue
 		}
+		if isContentLengthPositiveExpr(v, isReq) {
+			// `return r.ContentLength > 0` behind "a length is declared": true exactly for a positive length, false only
+			// with the header present
+			c.obI("R17.1", ret, "false-needs-declared-length", guardedBy(ret, nil, anyFact(clPositive, headerPresent)), "without reading, HasBody answers false only when a Content-Length header is present (a length is declared)", "the answer ContentLength > 0 is returned although no length is declared: a body of unknown length is never probed")
+			continue
+		}
 		ok, bad := allOrigins(v, oCall(-1, "(*rt.peekingReader).HasContent"))
 		c.obI("R17.1", ret, "answer-from-probe", ok, "otherwise the answer is whether one byte can be peeked", "origin "+describeOrigin(bad))
 	}
@@ -143,6 +149,25 @@ func runC17(c *Ctx) {
 			continue
 		}
 		c.obI("R17.2", ret, "no-successful-read-when-closed", guardedBy(ret, nil, factNil(isUnderlying(rd), false)), "Read returns a nil error only when the reader is open (underlying != nil): whatever the buffer's size, a read after Close fails", "a return with a nil error is reachable in the closed state")
+	}
+	// the buffered reader is read ONCE per Read, by its own Read: a looping reader of the io package (ReadAtLeast, ReadFull,
+	// ReadAll, Copy …) changes what the caller sees — a zero-length buffer fails, an error arriving with data is dropped
+	for _, fn := range withClosures(rd) {
+		for _, ci := range allCalls(fn) {
+			cc := ci.Common()
+			sc := cc.StaticCallee()
+			if sc == nil || sc.Pkg == nil || (sc.Pkg.Pkg.Path() != "io" && sc.Pkg.Pkg.Path() != "io/ioutil" && sc.Pkg.Pkg.Path() != "bufio") {
+				continue
+			}
+			for _, a := range cc.Args {
+				if chg, isChg := a.(*ssa.ChangeInterface); isChg {
+					a = chg.X
+				}
+				if isUnderlying(rd)(unboxed(a)) || isUnderlying(rd)(a) {
+					c.obD("R17.1", ci, "read-is-one-plain-read", false, "Read hands the call to the buffered reader's own Read, once: the caller sees exactly the (n, err) of the stream, for every buffer size including zero", "the buffered reader is read through "+calleeName(cc))
+				}
+			}
+		}
 	}
 	c.obRF("R17.1", rd, "read-delegates", nDeleg == 1, "Read has exactly one delegate call", fmt.Sprintf("%d interface calls", nDeleg))
 	// no access to orig in Read / HasContent
@@ -324,6 +349,36 @@ func runC17(c *Ctx) {
 		c.obRF("R17.3", fn, "uses-receiver", n > 0, "the method accesses its receiver's state", "no field access through the receiver found")
 		c.obF("R17.3", fn, "nil-receiver-safe", allOK, "HasBody installs a nil *peekingReader for a nil body: every method dereferences its receiver only under p != nil", "receiver dereferenced without a nil test")
 	}
+	// closing the nil wrapper (the body installed for a request that had none) succeeds: whatever Close returns on a path
+	// a nil receiver can take is nil — a body that was never there is not "already closed"
+	{
+		recv := cl.Params[0]
+		notNil := factNil(vIs(recv), false)
+		isNilV := func(v ssa.Value) bool {
+			ok, _ := allOrigins(v, func(o Origin) bool { return isNilConst(o.V) })
+			return ok
+		}
+		nNil := 0
+		for _, ret := range realReturns(cl) {
+			if !pathExists(cl, nil, ret, notNil, nil) {
+				continue
+			}
+			nNil++
+			v := resOf(ret, 0)
+			ok := true
+			if phi, isPhi := v.(*ssa.Phi); isPhi {
+				for i, e := range phi.Edges {
+					if pathExistsToEdge(cl, nil, phi.Block().Preds[i], phi.Block(), notNil) && !isNilV(e) {
+						ok = false
+					}
+				}
+			} else {
+				ok = isNilV(v)
+			}
+			c.obI("R17.3", ret, "nil-wrapper-closes-quietly", ok, "Close on the nil wrapper (installed for a request without a body) returns nil", "a nil receiver can reach a return that reports an error")
+		}
+		c.obRF("R17.3", cl, "nil-wrapper-close-path", nNil >= 1, "Close has a path for the nil receiver", "")
+	}
 	// the premise: newPeekingReader(nil) returns nil (documented by its own nil test)
 	okNil := false
 	for _, ret := range returnsOf(np) {
@@ -396,4 +451,13 @@ func factContentLengthDeclared(isReq VPred, isCLHeaderGet VPred) EdgePred {
 		return false
 	}
 	return anyFact(factEqString(isCLHeaderGet, "", false), factLenPositive(isLookupOrElem, true))
+}
+
+// isContentLengthPositiveExpr: v is the comparison r.ContentLength > 0 (or >= 1) itself.
+func isContentLengthPositiveExpr(v ssa.Value, isReq VPred) bool {
+	bo, ok := v.(*ssa.BinOp)
+	if !ok {
+		return false
+	}
+	return factContentLengthPositive(isReq)(bo, true)
 }
